@@ -242,7 +242,7 @@ func (x *fnExec) store(st *State, p Val, t types.Type, v Val) {
 
 func (x *fnExec) freshRef(st *State, hint string) *Term {
 	r := Fresh(hint, SRef)
-	x.facts = append(x.facts, Fact{x.next(), Not(Eq(r, BVU(0, 64)))})
+	x.facts = append(x.facts, Fact{x.next(), And(Not(Eq(r, BVU(0, 64))), App("newobj", SBool, r))})
 	x.allocs = append(x.allocs, allocRec{r, x.seq})
 	return r
 }
@@ -293,6 +293,22 @@ func (x *fnExec) constVal(c constant.Value, t types.Type) Val {
 	return zeroVal(t)
 }
 
+// globalRef gives every package-level variable its own object identity (small literals, never nil).
+func (x *fnExec) globalRef(name string) *Term {
+	k := "global:" + name
+	id, ok := x.P.typeTags[k]
+	if !ok {
+		id = len(x.P.typeTags) + 16
+		x.P.typeTags[k] = id
+	}
+	r := BVU(uint64(id)+1<<20, 64)
+	if !x.wfSeen[-id] {
+		x.wfSeen[-id] = true
+		x.facts = append(x.facts, Fact{x.next(), Not(App("newobj", SBool, r))})
+	}
+	return r
+}
+
 func (x *fnExec) typeTag(t types.Type) *Term {
 	k := "type:" + types.TypeString(t, nil)
 	id, ok := x.P.typeTags[k]
@@ -310,7 +326,7 @@ func (x *fnExec) val(fr *frame, v ssa.Value) Val {
 	case *ssa.Const:
 		return x.constVal(c.Value, c.Type())
 	case *ssa.Global:
-		return Val{K: VPtr, Prefix: "G:" + c.Name(), Ref: BVU(1, 64), Ty: c.Type()}
+		return Val{K: VPtr, Prefix: "G:" + c.Name(), Ref: x.globalRef(c.Name()), Ty: c.Type()}
 	case *ssa.Function:
 		return scalar(x.strID("func:"+c.String()), c.Type())
 	case *ssa.Builtin:
@@ -667,6 +683,7 @@ func (x *fnExec) instr(fr *frame, st *State, instr ssa.Instruction) {
 		p := x.val(fr, t.Addr)
 		x.nilCheck(fr, st, p, t)
 		v := x.val(fr, t.Val)
+		x.atStore(fr, st, t, p, v)
 		x.store(st, p, t.Addr.Type().Underlying().(*types.Pointer).Elem(), v)
 	case *ssa.TypeAssert:
 		x.typeAssert(fr, st, t)
